@@ -613,6 +613,7 @@ static void run_transport(vh_rng_t *rng)
 #include "sim_search.h"
 #include "sim_cache.h"
 #include "sim_prov.h"
+#include "sim_addr.h"
 
 static int profile_run(const char *profile, vh_rng_t *rng, uint64_t idx)
 {
@@ -624,6 +625,10 @@ static int profile_run(const char *profile, vh_rng_t *rng, uint64_t idx)
     gen_hostile(rng);
     run_generic(rng);
     hostile_fingerprint();
+    return 1;
+  }
+  if (!strcmp(profile, "addr")) {
+    run_addr(rng);
     return 1;
   }
   if (!strcmp(profile, "prov")) {
